@@ -119,6 +119,12 @@ func (e *Explorer) Explore(d Driver) {
 	e.Exhaustive = true
 	if e.NShards > 1 && e.CutDepth <= 0 {
 		e.CutDepth = 2
+		// A flat exploration (one wide first choice, e.g. "which block of 256
+		// code points") has nearly all its executions at depth 1, which every
+		// shard would repeat: cut there instead.
+		if x := Run(d, nil); len(x.points) > 0 && x.points[0].arity >= 4*e.NShards {
+			e.CutDepth = 1
+		}
 	}
 	e.rec(d, nil, 0, e.NShards == 1 || e.Shard == 0)
 }
